@@ -60,7 +60,7 @@ pub fn imp_line(c: &Case, v: &imp::ValOut, submitted_uri: &str) -> String {
         let r = v.returned.as_ref().unwrap();
         let id = match &c.answer {
             Answer::Key { identity, .. } => {
-                if r.principal == format!("{:?}", imp::principal_for(identity)) && r.session == format!("{:?}", imp::session_for(identity)) {
+                if r.principal == format!("{:?}", imp::principal_for(identity)) && r.session_data == imp::session_for(identity) {
                     hx(identity.as_bytes())
                 } else {
                     "MISMATCH".to_string()
